@@ -646,6 +646,28 @@ def drain(F, R):
                     ok = False; why = 'process_event_pool re-entered while already draining the pool'
         R.ob('C10.first', ok, {'func': f.q})
         if not ok: R.find('C10.first', f, 'post-step', why)
+        if be != 'backmp11':
+            # the completion pass is armed by the outcome of this dispatch alone: the flag handed to the completion helper
+            # depends on nothing but the result of do_process_helper (not on where the event came from)
+            from rules_order import dependency_closure
+            for i, n in enumerate(f.nodes):
+                if not (n and n['k'] == 'ctor' and 'handle_eventless_transitions_helper<' in F.strs[n['t']] and len(n.get('args', [])) >= 2): continue
+                R.anchor('completion-arm:' + be)
+                isdisp = lambda m: m['k'] == 'call' and m.get('n') == 'do_process_helper'
+                deps = dependency_closure(f, n['args'][1], stop=isdisp)
+                extra = []
+                hasdisp = False
+                for d in deps:
+                    m = f.nodes[d]
+                    if not m: continue
+                    if isdisp(m): hasdisp = True; continue
+                    if m['k'] == 'ref' and m.get('dk') == 'param': extra.append(m['n'])
+                    if m['k'] == 'mem': extra.append(m['n'])
+                    if m['k'] == 'call' and not m.get('op'): extra.append(m.get('n') + '()')
+                ok2 = hasdisp and not extra and 'HANDLED_TRUE' in ' '.join(f.expr(d) for d in deps if f.nodes[d] and f.nodes[d]['k'] == 'ref')
+                R.ob('C10.first', ok2, {'func': f.q, 'armed_by': f.expr(n['args'][1])})
+                if not ok2:
+                    R.find('C10.first', f, 'completion-arm', 'the completion pass after a dispatch must be armed by HANDLED_TRUE of that dispatch alone; the flag given to the completion helper is %s and also depends on %s' % (f.expr(n['args'][1]), sorted(set(extra)) or 'nothing from the dispatch'), where=f.at(i))
 
 # ------------------------------------------------------------------ history policies (C08.table, C08.event)
 
@@ -1389,3 +1411,110 @@ def exitwiring(F, R):
                 ok = ok and 'm_root_sm' in root
                 R.ob('C09.forward', ok, {'func': f.q, 'calls': calls, 'root': root})
                 if not ok: R.find('C09.forward', f, 'entry-order', 'entering an exit pseudostate must run its entry and then forward the event to the root machine; found %s with %s' % (calls, root))
+
+@rule('seqadvance')
+def seqadvance(F, R):
+    """C05.seq-advance (backmp11): every event that is dispatched and does not come out of the event pool starts a new sequence:
+    on each path of process_event_internal that reaches the dispatch without incrementing the pool's cur_seq_cnt the branch
+    outcomes must imply info == process_info::event_pool.  (A Defer-action occurrence is re-offered only when its stamp differs from
+    the current sequence; a machine whose counter does not advance never re-offers it.)"""
+    for f in F.funcs:
+        if backend_of(f) != 'backmp11' or f.n != 'process_event_internal' or not f.blocks: continue
+        if not any(n.get('n') in ('process_event_pool', 'get_event_pool') for i, n in f.calls()): continue     # machine without event pool
+        R.seen(f); R.anchor('seq-advance:backmp11')
+        bad = None; npaths = 0
+        for p in f.paths(edge_bound=1):
+            if f.aborts(p) or not path_consistent(f, p): continue
+            inc = False; disp = None
+            for i in f.path_nodes(p):
+                n = f.nodes[i]
+                if not n: continue
+                if n['k'] == 'asg' and n.get('op') in ('+=', '=') and f.base_member(n['lhs']) == 'cur_seq_cnt': inc = True
+                if n['k'] == 'un' and n.get('op') in ('++', 'pre++', 'post++') and f.base_member(n['e']) == 'cur_seq_cnt': inc = True
+                if n['k'] == 'call' and n.get('n') == 'do_process_event': disp = i; break
+            if disp is None: continue
+            npaths += 1
+            if inc: continue
+            frompool = False
+            for bi, b in enumerate(p[:-1]):
+                for c, t in cond_facts(f, f.bmap[b], p[bi + 1]):
+                    if c['k'] == 'bin' and c['op'] in ('==', '!='):
+                        cid = next((k for k, x in enumerate(f.nodes) if x is c), None)
+                        e = f.expr(cid) if cid is not None else ''
+                        if 'info' in e and 'event_pool' in e and ((c['op'] == '==') == t): frompool = True
+            if not frompool: bad = bad or f.at(disp)
+        ok = bad is None and npaths > 0
+        R.ob('C05.seq-advance', ok, {'func': f.q, 'dispatch_paths': npaths})
+        if not ok:
+            R.find('C05.seq-advance', f, 'no-advance', 'an event that does not come from the event pool reaches the dispatch without advancing cur_seq_cnt: a Defer-action occurrence stamped in this machine is then never re-offered', where=bad or f.loc)
+
+@rule('visitref')
+def visitref(F, R):
+    """C03.visit-ref (back / back11): a visitor argument declared by reference in accept_sig reaches the substates of an active
+    submachine as the same object: on the chain visit_current_states -> visitor_fct_helper::execute -> composite_accept ->
+    visit_current_states no object of the referenced type is constructed from a reference(-wrapper) parameter."""
+    for f in F.funcs:
+        be = backend_of(f)
+        if be not in ('back', 'back11') or not f.blocks: continue
+        if not ((f.n in ('composite_accept', 'visit_current_states') and f.cls == 'state_machine') or (f.n == 'execute' and f.cls == 'visitor_fct_helper')): continue
+        refd = {}
+        for p, t in zip(f.d.get('params', []), f.param_types()):
+            t = t.strip()
+            if t.endswith('&') and not t.endswith('&&'): refd[p['n']] = strip_cvref(t)
+            else:
+                h, a, r = parse_type(strip_cvref(t))
+                if h in ('boost::reference_wrapper', 'std::reference_wrapper') and a: refd[p['n']] = strip_cvref(a[0])
+        if not refd: continue
+        R.seen(f); R.anchor('visit-ref:%s:%s' % (be, f.n))
+        bad = None
+        for i, n in enumerate(f.nodes):
+            if not (n and n['k'] == 'ctor' and n.get('args')): continue
+            ct = strip_cvref(F.strs[n['t']])
+            for a in n['args']:
+                m = f.nodes[a]
+                while m and m['k'] in ('icast', 'cast'): m = f.nodes[m['e']]
+                if m and m['k'] == 'ref' and m.get('dk') == 'param' and refd.get(m['n']) == ct: bad = (i, m['n'], ct)
+        ok = bad is None
+        R.ob('C03.visit-ref', ok, {'func': f.q, 'by_reference': sorted(refd.values())})
+        if not ok:
+            R.find('C03.visit-ref', f, 'copied', 'visitor argument %s is declared by reference (%s) but a copy of it is constructed here: the substates of an active submachine are visited with the copy and the caller\'s visitor never sees them' % (bad[1], Facts.short(bad[2], 60)), where=f.at(bad[0]), instance=Facts.short(bad[2], 120))
+
+def blocks_in_cycles(f):
+    succ = {k: b['s'] for k, b in f.bmap.items()}
+    out = set()
+    for b0 in succ:
+        seen = set(); work = list(succ[b0])
+        while work:
+            x = work.pop()
+            if x in seen: continue
+            seen.add(x); work.extend(succ.get(x, []))
+        if b0 in seen: out.add(b0)
+    return out
+
+@rule('visitorder')
+def visitorder(F, R):
+    """C03.visit-order (backmp11): the active-state visitor reports the active states region by region (the entry visitor numbers the
+    regions by counting visits and hands that number to the completion transition): the loop over m_active_state_ids is in visit()
+    itself and the per-state closure that calls accept is created inside that loop; no per-state closure loops over the regions."""
+    for f in F.funcs:
+        if backend_of(f) != 'backmp11' or f.cls != 'state_visitor_impl' or f.n != 'visit' or not f.blocks: continue
+        lams = []
+        for m in f.nodes:
+            if m and m['k'] == 'lambda': lams.extend(F.funcs_of_lambda(m['lck']))
+        refs = lambda g: any(m and m['k'] == 'mem' and m.get('n') in ACTIVE_MEMBERS for m in g.nodes)
+        if not refs(f) and not any(refs(g) for g in lams): continue        # the all-states variant
+        R.seen(f); R.anchor('visit-order:backmp11')
+        cyc = blocks_in_cycles(f)
+        loop_here = refs(f) and any(b.get('tk') in ('CXXForRangeStmt', 'ForStmt', 'WhileStmt', 'DoStmt') for b in f.blocks)
+        lam_in_loop = False
+        for bid, b in f.bmap.items():
+            if bid in cyc and any(f.nodes[i] and f.nodes[i]['k'] == 'lambda' for i in b['e']): lam_in_loop = True
+        accept_here = any(n.get('n') == 'accept' for i, n in f.calls())
+        bad_lams = [g for g in lams if refs(g)]
+        backwards = any(n.get('n') in ('rbegin', 'rend', 'crbegin', 'crend') for i, n in f.calls())
+        ok = loop_here and not bad_lams and not backwards and (lam_in_loop or (accept_here and not lams))
+        R.ob('C03.visit-order', ok, {'func': f.q, 'closures': len(lams)})
+        if not ok:
+            g = bad_lams[0] if bad_lams else f
+            R.find('C03.visit-order', g, 'state-major', 'the active-state visit must iterate the regions outermost (region order is what the entry visitor counts); here %s' %
+                   ('the per-state closure loops over m_active_state_ids, so states are reported in state-id order' if bad_lams else 'the regions are walked backwards' if backwards else 'visit() has no region loop enclosing the per-state closure'))
